@@ -20,14 +20,32 @@ Proof.
     + apply IH; auto.
 Qed.
 
-Lemma pairs_no_fuel {A} (f : A -> A -> verdict) (l : list A) :
-  (forall x y, In x l -> In y l -> f x y <> VFuel) -> pairs f l <> VFuel.
+(* an invariant of the threaded state is preserved and no step runs out of fuel *)
+Lemma row_inv {A S} (I : S -> Prop) (f : S -> A -> verdict * S) (l : list A) :
+  (forall st y, In y l -> I st -> fst (f st y) <> VFuel /\ I (snd (f st y))) ->
+  forall st, I st -> fst (row f st l) <> VFuel /\ I (snd (row f st l)).
 Proof.
-  induction l as [|x r IH]; cbn; intros H.
-  - discriminate.
-  - intro Hc. apply vjoin_fuel in Hc as [Hc|Hc].
-    + revert Hc. apply (fold_no_fuel (f x)). intros y Hy. apply H; auto.
-    + revert Hc. apply IH. intros; apply H; auto.
+  induction l as [|y r IH]; cbn [row]; intros H st Hst.
+  - cbn. split; [discriminate | exact Hst].
+  - destruct (H st y (or_introl eq_refl) Hst) as [H1 H2].
+    destruct (f st y) as [v1 st1]. cbn [fst snd] in *.
+    destruct (IH (fun st y Hy => H st y (or_intror Hy)) st1 H2) as [H3 H4].
+    destruct (row f st1 r) as [v2 st2]. cbn [fst snd] in *. split; auto.
+    intro Hc. apply vjoin_fuel in Hc as [Hc|Hc]; auto.
+Qed.
+
+Lemma pairs_inv {A S} (I : S -> Prop) (f : S -> A -> A -> verdict * S) (l : list A) :
+  (forall st x y, In x l -> In y l -> I st -> fst (f st x y) <> VFuel /\ I (snd (f st x y))) ->
+  forall st, I st -> fst (pairs f st l) <> VFuel /\ I (snd (pairs f st l)).
+Proof.
+  induction l as [|x r IH]; cbn [pairs]; intros H st Hst.
+  - cbn. split; [discriminate | exact Hst].
+  - destruct (row_inv I (fun st y => f st x y) r
+                (fun st y Hy => H st x y (or_introl eq_refl) (or_intror Hy)) st Hst) as [H1 H2].
+    destruct (row (fun st y => f st x y) st r) as [v1 st1]. cbn [fst snd] in *.
+    destruct (IH (fun st x y Hx Hy => H st x y (or_intror Hx) (or_intror Hy)) st1 H2) as [H3 H4].
+    destruct (pairs f st1 r) as [v2 st2]. cbn [fst snd] in *. split; auto.
+    intro Hc. apply vjoin_fuel in Hc as [Hc|Hc]; auto.
 Qed.
 
 (* ---------------------------------------------------------------- visited sets *)
@@ -111,7 +129,7 @@ Section Universe.
     good B (collect_go frags rec).
   Proof.
     intros Hrec p ss. revert p.
-    induction ss as [|f sub IHsub rest IHrest|tc sub IHsub rest IHrest|n rest IHrest];
+    induction ss as [|f sub IHsub rest IHrest|iid tc sub IHsub rest IHrest|n rest IHrest];
       intros p st HB Hin Hok; cbn [collect_go fids_sels] in *.
     - exists st. repeat split; auto. apply incl_refl.
     - apply incl_cons_l in Hin as [Hf Hin].
@@ -177,20 +195,37 @@ Section Universe.
 
   Variable s : schema.
 
-  Lemma conf_no_fuel fuel : forall path so a b,
-    NoDup path -> incl path KU -> (length KU < fuel + length path)%nat ->
+  (* invariant of the visited set *)
+  Definition vis_ok (vis : list pkey) : Prop := NoDup vis /\ incl vis KU.
+
+  Lemma conf_no_fuel fuel : forall vis so a b,
+    vis_ok vis -> (length KU < fuel + length vis)%nat ->
     entry_ok a -> entry_ok b ->
-    conf s frags (length frags) fuel path so a b <> VFuel.
+    let r := conf s frags (length frags) fuel vis so a b in
+    fst r <> VFuel /\ vis_ok (snd r) /\ (length vis <= length (snd r))%nat.
   Proof.
-    induction fuel as [|f IH]; intros path so a b Hnd Hincl Hlen Ha Hb.
-    - pose proof (NoDup_incl_length Hnd Hincl). lia.
+    induction fuel as [|f IH]; intros vis so a b Hvis Hlen Ha Hb.
+    - destruct Hvis as [Hnd Hincl]. pose proof (NoDup_incl_length Hnd Hincl). lia.
     - cbn [conf]. unfold conf_step.
-      destruct (pkey_mem (f_id (e_fld a), f_id (e_fld b), so) path) eqn:Em; [discriminate|].
-      destruct (field_type s (e_parent a) (f_name (e_fld a))) as [ta|]; [|discriminate].
-      destruct (field_type s (e_parent b) (f_name (e_fld b))) as [tb|]; [|discriminate].
+      destruct (pkey_mem (f_id (e_fld a), f_id (e_fld b), so) vis) eqn:Em.
+      { cbn. repeat split; try apply Hvis; auto; discriminate. }
+      assert (Hk : In (f_id (e_fld a), f_id (e_fld b), so) KU)
+        by (apply key_in; [exact (proj1 Ha) | exact (proj1 Hb)]).
+      assert (Hv1 : vis_ok ((f_id (e_fld a), f_id (e_fld b), so) :: vis)).
+      { destruct Hvis as [Hnd Hincl]. split.
+        - constructor; auto. intro Hc. apply pkey_mem_In in Hc. congruence.
+        - intros z [<-|Hz]; auto. }
+      set (vis1 := (f_id (e_fld a), f_id (e_fld b), so) :: vis) in *.
+      assert (Hl1 : (length vis <= length vis1)%nat) by (unfold vis1; simpl; lia).
+      destruct (field_type s (e_parent a) (f_name (e_fld a))) as [ta|];
+        [|cbn; repeat split; try apply Hv1; auto; discriminate].
+      destruct (field_type s (e_parent b) (f_name (e_fld b))) as [tb|];
+        [|cbn; repeat split; try apply Hv1; auto; discriminate].
       cbv zeta.
-      match goal with |- (if ?c then _ else _) <> _ => destruct c end; [discriminate|].
-      destruct (shape_conflict s ta tb); [discriminate|].
+      match goal with |- context [if ?c then (VConflict, vis1) else _] => destruct c end;
+        [cbn; repeat split; try apply Hv1; auto; discriminate|].
+      destruct (shape_conflict s ta tb);
+        [cbn; repeat split; try apply Hv1; auto; discriminate|].
       destruct (collect_good (length frags) (named ta) (e_sub a) ([], []))
         as [st1 [H1 [_ H3]]]; cbn [fst snd]; auto.
       { rewrite unvis_nil. lia. } { exact (proj2 Ha). }
@@ -199,14 +234,19 @@ Section Universe.
       { pose proof (unvis_incl frags [] (fst st1) (incl_nil_l _)). rewrite unvis_nil in H. lia. }
       { exact (proj2 Hb). }
       rewrite K1.
-      apply pairs_no_fuel. intros x y Hx Hy.
-      destruct (same_rname x y); [|discriminate].
       rewrite Forall_forall in K3.
-      assert (Hk : In (f_id (e_fld a), f_id (e_fld b), so) KU) by (apply key_in; [exact (proj1 Ha) | exact (proj1 Hb)]).
-      apply IH; auto.
-      + constructor; auto. intro Hc. apply pkey_mem_In in Hc. congruence.
-      + intros z [<-|Hz]; auto.
-      + cbn [length]. lia.
+      match goal with |- context [pairs ?g vis1 (snd st2)] => set (g0 := g) end.
+      destruct (pairs_inv (fun v => vis_ok v /\ (length vis1 <= length v)%nat) g0 (snd st2)) with (st := vis1)
+        as [P1 [P2 P3]].
+      + intros v x y Hx Hy [Hv Hlv]. unfold g0.
+        destruct (same_rname x y).
+        * destruct (IH v (so || (negb (e_parent a =? e_parent b) && is_object s (e_parent a) && is_object s (e_parent b))) x y)
+            as [Q1 [Q2 Q3]]; auto.
+          { unfold vis1 in Hlv. cbn [length] in Hlv. lia. }
+          split; auto. split; auto. lia.
+        * cbn. split; [discriminate|]. split; auto.
+      + split; auto.
+      + split; auto. split; auto. lia.
   Qed.
 
   Lemma check_set_no_fuel p ss :
@@ -215,13 +255,13 @@ Section Universe.
     intro Hin. unfold check_set.
     destruct (collect_good (length frags) p ss ([], [])) as [st [H1 [_ H3]]]; cbn [fst snd]; auto.
     { rewrite unvis_nil. lia. }
-    rewrite H1. apply pairs_no_fuel. intros x y Hx Hy.
-    destruct (same_rname x y); [|discriminate].
-    rewrite Forall_forall in H3.
-    apply conf_no_fuel; auto.
-    - constructor.
-    - intros z [].
-    - cbn [length]. lia.
+    rewrite H1. rewrite Forall_forall in H3.
+    match goal with |- fst (pairs ?g [] (snd st)) <> _ => set (g0 := g) end.
+    apply (pairs_inv vis_ok g0 (snd st)).
+    - intros v x y Hx Hy Hv. unfold g0. destruct (same_rname x y).
+      + destruct (conf_no_fuel (S (length KU)) v false x y) as [Q1 [Q2 Q3]]; auto. lia.
+      + cbn. split; [discriminate | exact Hv].
+    - split; [constructor | intros z []].
   Qed.
 
   Lemma walk_no_fuel (chk : N -> sels -> verdict) :
@@ -229,7 +269,7 @@ Section Universe.
     forall ss p, incl (fids_sels ss) U -> walk s chk p ss <> VFuel.
   Proof.
     intros Hchk.
-    induction ss as [|f sub IHsub rest IHrest|tc sub IHsub rest IHrest|n rest IHrest];
+    induction ss as [|f sub IHsub rest IHrest|iid tc sub IHsub rest IHrest|n rest IHrest];
       intros p Hin; cbn [walk fids_sels] in *.
     - discriminate.
     - apply incl_cons_l in Hin as [Hf Hin].
@@ -322,18 +362,19 @@ Qed.
 Lemma entries_rnames p ss : map (fun e => f_rname (e_fld e)) (entries_of p ss) = rnames ss.
 Proof. induction ss; cbn; auto. f_equal. assumption. Qed.
 
-Lemma pairs_distinct (g : entry -> entry -> verdict) l :
+Lemma pairs_distinct {S} (g : S -> entry -> entry -> verdict * S) l (st : S) :
   NoDup (map (fun e => f_rname (e_fld e)) l) ->
-  pairs (fun x y => if same_rname x y then g x y else VNo) l = VNo.
+  pairs (fun st x y => if same_rname x y then g st x y else (VNo, st)) st l = (VNo, st).
 Proof.
-  induction l as [|x r IH]; cbn; intro H; auto.
-  inversion H as [|? ? Hn Hr]; subst. rewrite (IH Hr).
-  assert (fold_right (fun y acc => vjoin (if same_rname x y then g x y else VNo) acc) VNo r = VNo) as ->; auto.
-  clear IH H Hr. induction r as [|y r IHr]; cbn; auto.
-  unfold same_rname at 1.
-  destruct (f_rname (e_fld x) =? f_rname (e_fld y)) eqn:E.
-  - apply N.eqb_eq in E. exfalso. apply Hn. cbn. left. symmetry. exact E.
-  - rewrite IHr; auto. intro Hc. apply Hn. cbn. right. exact Hc.
+  induction l as [|x r IH]; cbn [pairs map]; intro H; auto.
+  inversion H as [|? ? Hn Hr]; subst.
+  assert (row (fun st y => if same_rname x y then g st x y else (VNo, st)) st r = (VNo, st)) as ->.
+  { clear IH H Hr. induction r as [|y r IHr]; cbn [row]; auto.
+    unfold same_rname at 1.
+    destruct (f_rname (e_fld x) =? f_rname (e_fld y)) eqn:E.
+    - apply N.eqb_eq in E. exfalso. apply Hn. cbn. left. symmetry. exact E.
+    - rewrite IHr; auto. intro Hc. apply Hn. cbn. right. exact Hc. }
+  rewrite (IH Hr). reflexivity.
 Qed.
 
 Theorem distinct_names_never_conflict s frags cf df p ss :
@@ -342,6 +383,6 @@ Proof.
   intros Hf Hn. unfold check_set.
   assert (collect frags cf p ss ([], []) = Some ([], rev (entries_of p ss) ++ [])) as ->.
   { destruct cf; cbn [collect]; apply (collect_go_fields _ _ _ _ ([], [])); exact Hf. }
-  cbn [snd]. apply pairs_distinct.
+  cbn [snd]. rewrite pairs_distinct; [reflexivity|].
   rewrite app_nil_r, map_rev, entries_rnames. apply NoDup_rev. exact Hn.
 Qed.
